@@ -178,6 +178,7 @@ def run_case(ctx, g, rng):
         if o[0] == "ret":
             exercise(o[1], pm.items())
         with_options(C.from_prefix_map, pm, rng, pm.items())
+        sibling_leg(C.from_prefix_map, pm, "prefix_map", rng)
         probe.note_key(f"pm:dup{int(dup)}:{o[0]}:n{min(len(pm), 3)}", dup)
         # upgrade_prefix_map on the same (possibly non-bijective) map
         uo = call(api.upgrade_prefix_map, dict(pm))
@@ -206,6 +207,7 @@ def run_case(ctx, g, rng):
         if o[0] == "ret":
             exercise(o[1], [(p, u) for u, p in rpm.items()])
         with_options(C.from_reverse_prefix_map, rpm, rng, [(p, u) for u, p in rpm.items()])
+        sibling_leg(C.from_reverse_prefix_map, rpm, "reverse_prefix_map", rng)
         groups = {}
         for u, p in rpm.items():
             groups.setdefault(p, []).append(u)
@@ -275,6 +277,7 @@ def run_case(ctx, g, rng):
         loader = rng.choice([C.from_jsonld, api.load_jsonld_context])
         o = three_forms(ctx, loader, data, "jsonld")
         with_options(C.from_jsonld, data, rng)
+        sibling_leg(C.from_jsonld, data, "jsonld", rng)
         if o[0] == "ret":
             exercise(o[1], [(k, v if isinstance(v, str) else v["@id"]) for k, v in ctxd.items()
                             if k and not k.startswith("@") and (isinstance(v, str) or (isinstance(v, dict) and v.get("@prefix") is True))])
@@ -302,6 +305,7 @@ def run_case(ctx, g, rng):
             o = call(C.from_rdflib, src)
             if o[0] == "ret":
                 exercise(o[1], den.items())
+        sibling_leg(C.from_rdflib, graph, "rdflib", rng)
         probe.note_key(f"rdflib:{gstyle}:default{int('' in den)}:n{len(den)}:{o[0]}", "" in den or len(den) >= 2)
         S.counters["wl:rdflib"] += 1
     if g % 199 < 6 and which == g % 199:
